@@ -221,6 +221,10 @@ Loop:
 			case codec.MovedOrAsk:
 				addr, slot := r.parseMovedOrAsk()
 				el.eventHandler.OnMoved(addr, slot, s, r)
+				if r.Error.NotNil() {
+					// the redirect could not be followed: the request must not be left unanswered
+					el.failFrag(r, r.Error)
+				}
 				continue
 
 			// The current message has been processed, continue to process the next message
@@ -412,6 +416,7 @@ func (el *eventloop) closeConn(c *conn, err error, closeType ConnCloseType) (rer
 			GlobalStats.ClientConnectionsClientErr.WithLabelValues().Inc()
 		}
 	case ConnServer:
+		el.failFrags(c)
 		el.eventHandler.OnSClosed(c, err)
 		el.addSConn(-1)
 		switch closeType {
@@ -427,6 +432,38 @@ func (el *eventloop) closeConn(c *conn, err error, closeType ConnCloseType) (rer
 	c.releaseTCP()
 
 	return
+}
+
+// failFrags answers, with an error, the requests that were queued on or in flight over a
+// redis connection that is being closed; nothing will ever answer them otherwise.
+func (el *eventloop) failFrags(s *conn) {
+	for _, q := range []*FragQueue{s.inFragQueue, s.outFragQueue} {
+		if q == nil {
+			continue
+		}
+		for f := q.head; f != nil; f = f.prev {
+			el.failFrag(f, codec.ErrUnKnownProxyPoolConnError)
+		}
+	}
+}
+
+// failFrag completes the message the fragment belongs to with an error reply and
+// writes it (in order) to the client.
+func (el *eventloop) failFrag(f *Frag, e codec.Error) {
+	if f.Owner == nil || f.Peer == nil || f.Done {
+		return
+	}
+	msg := f.Peer
+	for _, v := range msg.Body {
+		v.Done = true
+	}
+	msg.Error = e
+	msg.RspBody = append(msg.RspBody[:0], e.Bytes()...)
+	msg.FragDoneNumber = len(msg.Body)
+	msg.Done = true
+	if c, ok := f.Owner.(*conn); ok {
+		_ = el.flushDone(c)
+	}
 }
 
 func (el *eventloop) ticker() {
